@@ -61,21 +61,31 @@ def ofDir (j : Json) : Except String Dir :=
   | Json.null => pure { schema := none, files := fun _ => {} }
   | _ => do pure { schema := ← ofOptSchema j "schema", files := ← ofFiles (← j.getObjVal? "files") }
 
-def ofSel (j : Json) : Except String Sel :=
+def ofOptErr (j : Json) (k : String) : Except String (Option Err) :=
+  match j.getObjVal? k with
+  | .ok Json.null => pure none
+  | .error _ => pure none
+  | .ok v => do pure (some (← ofErrTag (← v.getStr?)))
+
+def ofFilt (j : Json) : Except String Filt :=
   match j with
-  | Json.str "tsqlError" => pure .tsqlError
+  | Json.str "unresolved" => pure .unresolved
   | _ =>
-    match j.getObjVal? "counts" with
-    | .ok v => do pure (.counts (← (← v.getArr?).toList.mapM (·.getNat?)))
+    match j.getObjVal? "rels" with
+    | .ok v => do
+      let rs ← (← v.getArr?).toList.mapM (·.getStr?)
+      let ks ← (← getArr j "counts").mapM (·.getNat?)
+      pure (.rels rs ks (← ofOptErr j "late"))
     | .error _ => do pure (.raise (← ofErrTag (← getStr j "raise")))
 
-def ofSels (j : Json) (k : String) : Except String (Option (Name → Sel)) :=
+/-- the filter outcome per table; the join plan is computed by the model from the source schema -/
+def ofSels (ss : Schema) (j : Json) (k : String) : Except String (Option (Name → Sel)) :=
   match j.getObjVal? k with
   | .ok Json.null => pure none
   | .error _ => pure none
   | .ok v => do
-    let l ← (← v.getArr?).toList.mapM (fun t => do pure (← getStr t "name", ← ofSel (← t.getObjVal? "sel")))
-    pure (some (fun n => (l.lookup n).getD .tsqlError))
+    let l ← (← v.getArr?).toList.mapM (fun t => do pure (← getStr t "name", ← ofFilt (← t.getObjVal? "filt")))
+    pure (some (fun n => planSel ss n ((l.lookup n).getD .unresolved)))
 
 /-- MID: mtime of the files written during the case (later than every planted file) -/
 def MID : Nat := 2000000000
@@ -109,7 +119,7 @@ def handle (j : Json) : Except String Json := do
   match op with
   | "db" =>
     let src ← ofDir (← j.getObjVal? "src")
-    let p : DbParams := { schema := schema, sel := ← ofSels j "sel", full := ← getBool j "full",
+    let p : DbParams := { schema := schema, sel := ← ofSels (src.schema.getD []) j "sel", full := ← getBool j "full",
                           gzip := gzip, skeleton := skeleton }
     pure (obs watch (mkprofDb MID src dst p))
   | "refresh" => pure (obs watch (mkprofRefresh MID dst schema gzip skeleton))
